@@ -35,6 +35,7 @@ def parseAct (ws : List String) : Option Act :=
   | ["setShallow", a] => a.toNat?.map .setShallow
   | ["upgradeField", a] => a.toNat?.map .upgradeField
   | ["cloneField", a] => a.toNat?.map .cloneField
+  | ["downgradeField", a] => a.toNat?.map .downgradeField
   | _ => none
 
 /-- script syntax: actions separated by `;` -/
@@ -80,6 +81,7 @@ def actText : Act → String
   | .setShallow a => s!"setShallow {a}"
   | .upgradeField a => s!"upgradeField {a}"
   | .cloneField a => s!"cloneField {a}"
+  | .downgradeField a => s!"downgradeField {a}"
 
 def parseHint (s : String) : List Nat :=
   ((s.trimAscii.toString.splitOn " ").filter (· ≠ "")).filterMap (·.toNat?)
